@@ -122,6 +122,9 @@ class DepSet(boolean.AndRestriction, caching=False):
 
                 elif k[-1] == "?" or k in operators:
                     # use conditional or custom op.
+                    if k in ("?", "!?"):
+                        # a conditional marker that names no flag
+                        raise DepsetParseError(dep_str, k, attr=attr)
                     # no tokens left == bad dep_str.
                     k2 = next(words)
 
